@@ -145,8 +145,23 @@ func (g *pg) stmt(depth int) gen.Val {
 		if depth > 0 {
 			g.stats["nested-load"]++
 			var forms []gen.Val
+			raw := g.n(0, 1, "raw-nested") == 0
+			if raw {
+				// unwrapped forms: a failing form aborts the WHOLE nested load
+				// (after an in-package inside it) and the loader, which
+				// contains the error, carries on
+				g.stats["nested-load-raw"]++
+				forms = append(forms, gen.Call("in-package", gen.QS(g.pkg())))
+			}
 			for i, n := 0, g.n(1, 4, "nnested"); i < n; i++ {
-				forms = append(forms, g.wrap(g.stmt(depth-1)))
+				st := g.stmt(depth - 1)
+				if !raw {
+					st = g.wrap(st)
+				}
+				forms = append(forms, st)
+			}
+			if raw && g.n(0, 1, "force-fail") == 0 {
+				forms = append(forms, gen.S("surely-unbound-name"))
 			}
 			g.nested = append(g.nested, forms)
 			return gen.Call("load-string", gen.Str(gen.RenderProgram(forms)))
